@@ -70,6 +70,14 @@ def mutate(rng, prob, kw, d):
         kw["rhoend"] = rb / r0
         kw["maxfun"] = int(rng.integers(150, 300))
         d.update(rhoend=kw["rhoend"], maxfun=kw["maxfun"], small_alpha1=a1)
+    if d.get("restarts") == "hard" and rng.random() < 0.5:
+        # hard restarts that really happen (loose rhoend, larger budget), with and without re-use of the old residuals:
+        # the counters handed from run to run show in the nf / nx columns
+        up["restarts.hard.use_old_rk"] = bool(rng.random() < 0.5)
+        rb = float(kw.get("rhobeg", d.get("rhobeg", 0.1)))
+        kw["rhoend"] = rb * 10.0 ** (-rng.uniform(1.0, 2.0))
+        kw["maxfun"] = int(rng.integers(100, 200))
+        d.update(rhoend=kw["rhoend"], maxfun=kw["maxfun"], hard_reached=True)
     if up.get("restarts.increase_npt") and rng.random() < 0.6:
         # several points per restart: the cap restarts.max_npt must hold whatever the increment
         up["restarts.increase_npt_amt"] = int(rng.integers(2, 4))
